@@ -782,10 +782,12 @@ class SplineParser(object):
             symbolic_duration["normal_notes"] = int(diff[min(list(diff.keys()))]) // 4
         if dots:
             symbolic_duration["dots"] = dots
+        if isinstance(dur, str):
+            # "0", "00" and "000" are the breve, long and maxima: two, four and
+            # eight whole notes, i.e. reciprocals 1/2, 1/4 and 1/8 (not zero)
+            dur = {"0": 0.5, "00": 0.25, "000": 0.125}.get(dur, float(dur))
         self.note_duration_values[self.total_parsed_elements] = (
-            dot_function((float(dur) if isinstance(dur, str) else dur), dots)
-            if not is_grace
-            else inf
+            dot_function(dur, dots) if not is_grace else inf
         )
         return symbolic_duration
 
